@@ -144,3 +144,71 @@ theorem c16_normalised_sum_one (n : ℕ) (a w : ℕ → ℝ)
   exact div_self hS
 
 end PyvcSum
+
+/- ---- C07 (contracts/C07.py, pyvc/lib/ext_returns.py): induction schema, fold uniqueness, n-step closed form, GAE suffix congruence ---- -/
+namespace PyvcSum
+
+/-- induction schema over 0..n (pyvc.lib.ext_returns.induct): base and step are proof
+obligations, the conclusion is what the verifier assumes afterwards -/
+theorem nat_induct_upto (n : ℕ) (P : ℕ → Prop) (h0 : P 0)
+    (hs : ∀ k, k < n → P k → P (k + 1)) : ∀ k, k ≤ n → P k := by
+  intro k
+  induction k with
+  | zero => intro _; exact h0
+  | succ k ih =>
+    intro hk
+    exact hs k (Nat.lt_of_succ_le hk) (ih (Nat.le_of_succ_le hk))
+
+/-- a fold is determined by its recurrence (pyvc.lib.ext_returns lax.scan model: the carry
+after k steps is DEFINED by c 0 = init, c (k+1) = f k (c k)); two such sequences agree -/
+theorem fold_unique {α : Type} (n : ℕ) (f : ℕ → α → α) (c d : ℕ → α) (h0 : c 0 = d 0)
+    (hc : ∀ k, k < n → c (k + 1) = f k (c k)) (hd : ∀ k, k < n → d (k + 1) = f k (d k)) :
+    ∀ k, k ≤ n → c k = d k := by
+  apply nat_induct_upto n (fun k => c k = d k) h0
+  intro k hk ih
+  rw [hc k hk, hd k hk, ih]
+
+/-- C07: the n-step return / residual discount recurrences are the closed forms of the property
+statement:  D n = ∏_{t<n} γ(1-term t),  R n = ∑_{t<n} r t · ∏_{s<t} γ(1-term s) -/
+theorem nstep_closed_form (γ : ℝ) (r term R D : ℕ → ℝ) (hR0 : R 0 = 0) (hD0 : D 0 = 1)
+    (hR : ∀ t, R (t + 1) = R t + D t * r t) (hD : ∀ t, D (t + 1) = D t * (γ * (1 - term t))) :
+    ∀ n, D n = ∏ t ∈ range n, (γ * (1 - term t)) ∧
+         R n = ∑ t ∈ range n, r t * ∏ s ∈ range t, (γ * (1 - term s)) := by
+  intro n
+  induction n with
+  | zero => simp [hR0, hD0]
+  | succ n ih =>
+    obtain ⟨ihD, ihR⟩ := ih
+    constructor
+    · rw [hD, ihD, Finset.prod_range_succ]
+    · rw [hR, ihR, Finset.sum_range_succ, ihD]
+      ring
+
+/-- C07 (gae_congr_suffix): a backward recurrence A t = d t + w t · A (t+1), A n = 0 depends only on
+the data at t..last when w last = 0 (terminated step) or last = n-1: two data sets that agree on
+[t0, last] give the same A t0 -/
+theorem gae_congr_suffix (n t0 last : ℕ) (d₁ w₁ d₂ w₂ A₁ A₂ : ℕ → ℝ)
+    (h01 : t0 ≤ last) (hl : last < n)
+    (hA₁ : ∀ t, t < n → A₁ t = d₁ t + w₁ t * A₁ (t + 1))
+    (hA₂ : ∀ t, t < n → A₂ t = d₂ t + w₂ t * A₂ (t + 1))
+    (hn₁ : A₁ n = 0) (hn₂ : A₂ n = 0)
+    (hcut : w₁ last = 0 ∨ last + 1 = n)
+    (hagree : ∀ s, t0 ≤ s → s ≤ last → d₁ s = d₂ s ∧ w₁ s = w₂ s) :
+    A₁ t0 = A₂ t0 := by
+  have key : ∀ k, k ≤ last - t0 → A₁ (last - k) = A₂ (last - k) := by
+    apply nat_induct_upto (last - t0) (fun k => A₁ (last - k) = A₂ (last - k))
+    · simp only [Nat.sub_zero]
+      obtain ⟨hd, hw⟩ := hagree last h01 le_rfl
+      rw [hA₁ last hl, hA₂ last hl, hd, ← hw]
+      rcases hcut with h | h
+      · rw [h]; ring
+      · rw [h, hn₁, hn₂]
+    · intro k hk ih
+      have h1 : last - (k + 1) + 1 = last - k := by omega
+      have h2 : last - (k + 1) < n := by omega
+      obtain ⟨hd, hw⟩ := hagree (last - (k + 1)) (by omega) (by omega)
+      rw [hA₁ _ h2, hA₂ _ h2, h1, ih, hd, hw]
+  have := key (last - t0) le_rfl
+  rwa [Nat.sub_sub_self h01] at this
+
+end PyvcSum
